@@ -120,6 +120,9 @@ func tlsRecords(raw []byte) (bool, int) {
 // transport ended without it), "" (no TLS session / still open)
 var lastTLSReadEnd string
 
+// set by the C15 runner for its class beside_stalled_tls
+var tlsBeside bool
+
 func runTLS(cs *caseT, preChunks []int, msgs [][]byte) (o *obsT, handshake string, rawOK bool, turnBase int) {
 	lastTLSReadEnd = ""
 	reg := &registry{recs: map[string]*recorder{}}
@@ -130,6 +133,26 @@ func runTLS(cs *caseT, preChunks []int, msgs [][]byte) (o *obsT, handshake strin
 		panic(err)
 	}
 	o = &obsT{}
+	endOther := func() {}
+	if tlsBeside {
+		// another client of the same server has asked for TLS, has been told 'S', and now stalls before its
+		// ClientHello (for as long as this session lasts)
+		other := *cs
+		other.id = cs.id + "stalled"
+		connA, _ := newSession(&other, reg)
+		connA.encrypted = cs.cfg.tls
+		serveAsync(srv, connA, &obsT{})
+		connA.push(sslRequest())
+		connA.waitIdle(idleTimeout)
+		var once sync.Once
+		endOther = func() {
+			once.Do(func() {
+				connA.Close()
+				connA.waitFinished(idleTimeout)
+			})
+		}
+		defer endOther()
+	}
 	serveAsync(srv, conn, o)
 	rest := cs.raw
 	for _, n := range preChunks {
@@ -145,8 +168,24 @@ func runTLS(cs *caseT, preChunks []int, msgs [][]byte) (o *obsT, handshake strin
 	side := &clientSide{c: conn}
 	// the single-byte reply
 	first := make([]byte, 1)
-	if _, err := io.ReadFull(side, first); err != nil {
+	firstDone := make(chan error, 1)
+	go func() {
+		_, err := io.ReadFull(side, first)
+		firstDone <- err
+	}()
+	var ferr error
+	select {
+	case ferr = <-firstDone:
+	case <-time.After(idleTimeout):
+		// no answer to the SSLRequest at all
+		o.hang = true
+		conn.Close()
+		ferr = <-firstDone
+	}
+	if ferr != nil {
 		handshake = "noreply"
+		endOther()
+		conn.waitFinished(idleTimeout)
 		collect(conn, rec, o)
 		return o, handshake, false, 0
 	}
@@ -400,7 +439,11 @@ func runC11(c *runCfg) error {
 		// whatever segmentation (same segment, split inside the startup packet, byte by byte), is the plaintext
 		// continuation: the transcript behind 'N' equals the transcript of the same stream without the SSLRequest
 		if len(only) == 0 && i%2 == 0 {
-			base := cat(msgs...)
+			// "a fresh startup packet": of any protocol version a plain connection is served with (3.0, a later minor
+			// version as newer clients send, ...)
+			dm := append([][]byte{append([]byte{}, msgs[0]...)}, msgs[1:]...)
+			copy(dm[0][4:8], [][]byte{{0, 3, 0, 0}, {0, 3, 0, 2}, {0, 3, 0x27, 0x0f}, {0, 3, 0, 1}}[(i/2)%4])
+			base := cat(dm...)
 			gid := 800000 + i
 			ref := flatCase(0, "declined", cfg, base, nil)
 			ref.id = fmt.Sprintf("%d.v0", gid)
